@@ -405,3 +405,8 @@ VARIANTS["C20"] += [
     ("r3-block-loop-break", _PED, "        if len(block) <= 2:\n            continue\n        for i in range(2, len(block)):", "        if len(block) <= 2:\n            break\n        for i in range(2, len(block)):", "C20.R4"),
     ("b-r3-block-skip-lt-3", _PED, "        if len(block) <= 2:\n            continue\n        for i in range(2, len(block)):", "        if len(block) < 3:\n            continue\n        for i in range(2, len(block)):", "silent"),
 ]
+
+VARIANTS["C09"] += [
+    ("r4-changed-gt-descending", VCF, 'call["GT"] = tuple(sorted(genotypes[pos].as_vector()))', 'call["GT"] = tuple(genotypes[pos].as_vector())', "C09.R3"),
+    ("b-r4-changed-gt-sorted-list", VCF, 'call["GT"] = tuple(sorted(genotypes[pos].as_vector()))', 'call["GT"] = sorted(genotypes[pos].as_vector())', "silent"),
+]
